@@ -29,7 +29,12 @@ def fname(m, clash, n):
     return "f1" if (clash == "export" and m == n and n > 1) else f"f{m}"
 
 
-def module_source(m, dag, clash, n, single=False):
+def mname(j, naming="flat"):
+    """import name of module j: flat (m<j>) or one directory per module with the same file name in each (d<j>/util)"""
+    return f"m{j}" if naming == "flat" else f"d{j}/util"
+
+
+def module_source(m, dag, clash, n, single=False, naming="flat"):
     """module m: an exported function that calls the exported function and BOTH private overloads of every imported module,
     two private overloads h<m>(int) / h<m>(float); in the clash variant "helper" modules 1 and n both define a private bias(int)"""
     imps = dag[m - 1]
@@ -42,7 +47,7 @@ def module_source(m, dag, clash, n, single=False):
           f"export function {fname(m, clash, n)}(int a) -> int\n{{\n  int t = a * {PRIMES[m]};\n  return t{calls} + {m};\n}}\n")
     if single:
         return fn
-    imports = "".join(f'import "m{j}";\n' for j in imps)
+    imports = "".join(f'import "{mname(j, naming)}";\n' for j in imps)
     # imports before the other items for odd modules, after them for even ones
     return imports + fn if m % 2 == 1 else fn + imports
 
@@ -58,7 +63,8 @@ class CountingLoader:
 
 
 def work(job):
-    key, dag, clash, cases, repo, scratch = job
+    key, dag, clash, cases, repo, scratch = job[:6]
+    naming = job[6] if len(job) > 6 else "flat"
     n = len(dag)
     from nsl import LinearIR, VM
     d = os.path.join(scratch, key)
@@ -66,11 +72,12 @@ def work(job):
     out = []
     compiled = {}
     for m in range(n, 0, -1):
-        src = module_source(m, dag, clash, n)
-        open(os.path.join(d, f"m{m}.nsl"), "w").write(src)
-        p = subprocess.run([sys.executable, os.path.join(repo, "nslc.py"), f"m{m}.nsl", "-o", f"m{m}.nslir"], cwd=d, capture_output=True, text=True,
+        src = module_source(m, dag, clash, n, naming=naming)
+        os.makedirs(os.path.dirname(os.path.join(d, mname(m, naming))), exist_ok=True)
+        open(os.path.join(d, f"{mname(m, naming)}.nsl"), "w").write(src)
+        p = subprocess.run([sys.executable, os.path.join(repo, "nslc.py"), f"{mname(m, naming)}.nsl", "-o", f"{mname(m, naming)}.nslir"], cwd=d, capture_output=True, text=True,
                            env=dict(os.environ, PYTHONPATH=repo))
-        compiled[m] = p.returncode == 0 and os.path.exists(os.path.join(d, f"m{m}.nslir"))
+        compiled[m] = p.returncode == 0 and os.path.exists(os.path.join(d, f"{mname(m, naming)}.nslir"))
         if not compiled[m]:
             compiled[m] = False
             out.append((None, f"compile-fails:m{m}", (p.stdout + p.stderr)[-300:]))
@@ -78,7 +85,7 @@ def work(job):
     cli_done = False
     for c in cases:
         order, want, outcome, loads = c["order"], c["want"], c["outcome"], c["loads"]
-        case = {"dag": dag, "clash": clash, "host_adds": order, "sources": {f"m{m}": module_source(m, dag, clash, n) for m in want}}
+        case = {"dag": dag, "clash": clash, "host_adds": order, "module_names": naming, "sources": {mname(m, naming): module_source(m, dag, clash, n, naming=naming) for m in want}}
         imported_somewhere = {j for m in want for j in dag[m - 1]}
         if set(order) & imported_somewhere:
             out.append((None, "unjudged-host-adds-an-imported-module", None))
@@ -95,7 +102,7 @@ def work(job):
             with contextlib.redirect_stdout(io.StringIO()):
                 linker = LinearIR.Linker(loader=loader)
                 for m in order:
-                    linker.AddModule(pickle.load(open(f"m{m}.nslir", "rb")))
+                    linker.AddModule(pickle.load(open(f"{mname(m, naming)}.nslir", "rb")))
                 program = linker.Link()
             got = "done"
         except BaseException as e:  # noqa
@@ -110,8 +117,8 @@ def work(job):
         if got != "done":
             out.append((f"link-fails:{err.split(':')[0]}", f"host adds {order}: linking a clash-free program fails ({err})", case))
             continue
-        bad_loads = {f"m{m}": loader.counts.get(f"m{m}", 0) for m in want if loader.counts.get(f"m{m}", 0) != loads[m - 1]}
-        extra = {k: v for k, v in loader.counts.items() if int(k[1:]) not in want}
+        bad_loads = {mname(m, naming): loader.counts.get(mname(m, naming), 0) for m in want if loader.counts.get(mname(m, naming), 0) != loads[m - 1]}
+        extra = {k: v for k, v in loader.counts.items() if k not in {mname(m, naming) for m in want}}
         if bad_loads or extra:
             out.append(("load-count", f"host adds {order}: modules loaded {dict(loader.counts)}, the reference loads each imported module exactly once ({ {f'm{m}': loads[m - 1] for m in want} })", case))
             continue
@@ -142,7 +149,7 @@ def work(job):
             out.append((None, "ok-linked", None))
             if not cli_done and order == [1]:
                 cli_done = True
-                p = subprocess.run([sys.executable, os.path.join(repo, "nslr.py"), "run", "m1.nslir", fname(1, clash, n), "5"], cwd=d, capture_output=True, text=True,
+                p = subprocess.run([sys.executable, os.path.join(repo, "nslr.py"), "run", f"{mname(1, naming)}.nslir", fname(1, clash, n), "5"], cwd=d, capture_output=True, text=True,
                                    env=dict(os.environ, PYTHONPATH=repo))
                 mm = re.search(r"=\s*(-?\d+)", p.stdout)
                 with contextlib.redirect_stdout(io.StringIO()):
@@ -155,14 +162,70 @@ def work(job):
     return out
 
 
+def history(job):
+    """One process links a sequence of programs with the DEFAULT linker / loader: main imports "lib"; the library differs from
+    program to program (another directory, then the first directory again with lib re-stored).  Each link must see the
+    library that is stored at that moment: the linked program behaves like main + lib compiled as one module."""
+    repo, scratch = job
+    from nsl import LinearIR, VM
+    out = []
+    steps = [("pA", "q * 2"), ("pB", "q + 100"), ("pA", "q - 7"), ("pB", "q + 100")]
+    for k, (dirname, body) in enumerate(steps):
+        d = os.path.join(scratch, "history", dirname)
+        os.makedirs(d, exist_ok=True)
+        lib = f"export function lib(int q) -> int\n{{\n  return {body};\n}}\n"
+        main = 'import "lib";\nexport function f(int a) -> int\n{\n  return lib(a) + 1;\n}\n'
+        open(os.path.join(d, "lib.nsl"), "w").write(lib)
+        open(os.path.join(d, "main.nsl"), "w").write(main)
+        case = {"history": steps[:k + 1], "directory": dirname, "lib": lib, "main": main}
+        ok = True
+        for name in ("lib", "main"):
+            p = subprocess.run([sys.executable, os.path.join(repo, "nslc.py"), f"{name}.nsl", "-o", f"{name}.nslir"], cwd=d, capture_output=True, text=True,
+                               env=dict(os.environ, PYTHONPATH=repo))
+            if p.returncode != 0:
+                out.append((f"history-compile-fails:{name}", f"step {k}: {name} does not compile ({(p.stdout + p.stderr)[-120:]})", case))
+                ok = False
+        if not ok:
+            continue
+        os.chdir(d)
+        try:
+            with contextlib.redirect_stdout(io.StringIO()):
+                linker = LinearIR.Linker()
+                linker.AddModule(pickle.load(open("main.nslir", "rb")))
+                got = VM.VirtualMachine(linker.Link()).Invoke("f", a=5)
+        except BaseException as e:  # noqa
+            got = f"{type(e).__name__}: {e}"[:80]
+        st, r = common.compile_source(lib + main.replace('import "lib";\n', ""))
+        with contextlib.redirect_stdout(io.StringIO()):
+            want = common.link_vm(r).Invoke("f", a=5)
+        if got != want:
+            out.append(("history-stale-module", f"step {k} of one process ({[s_[0] for s_ in steps[:k + 1]]}): f(5) = {got!r} in the linked program, {want!r} for the library stored at that moment", case))
+        else:
+            out.append((None, "ok-history", None))
+    os.chdir("/")
+    return out
+
+
 def run(ctx, args):
     quick = ctx.tier == "quick"
     n = 3 if quick else 4
-    cfg = f"CONSTANTS N = {n} WithClash = TRUE\nINIT Init\nNEXT Next\nINVARIANT LoadedOnce\nINVARIANT OrderIndependent\nINVARIANT ClashRejected\nINVARIANT Report\nCHECK_DEADLOCK FALSE\n"
+    cfg = f"CONSTANTS N = {n} WithClash = TRUE RootOnly = FALSE\nINIT Init\nNEXT Next\nINVARIANT LoadedOnce\nINVARIANT OrderIndependent\nINVARIANT ClashRejected\nINVARIANT Report\nCHECK_DEADLOCK FALSE\n"
     res = ctx.tlc("Linker", cfg, timeout=3000)
+    records = list(res.records)
+    deep = []
+    if quick:
+        # one more module, the host adding the root only: every import DAG on 4 modules (longer chains, skewed diamonds)
+        res4 = ctx.tlc("Linker", cfg.replace(f"N = {n}", "N = 4").replace("WithClash = TRUE RootOnly = FALSE", "WithClash = FALSE RootOnly = TRUE"), timeout=3000)
+        seen4 = set()
+        for r in res4.records:
+            if str(r["dag"]) not in seen4:
+                seen4.add(str(r["dag"]))
+                deep.append(r)
+        if len(deep) != 64:
+            raise common.Machinery(f"expected 64 DAGs on 4 modules, got {len(deep)}")
     groups = {}
     seen = set()
-    for r in res.records:
+    for r in records:
         k = (str(r["dag"]), r["clash"], tuple(r["order"]))
         if k in seen:
             continue                      # the same case reached through another loading order: same terminal outcome (OrderIndependent)
@@ -181,8 +244,13 @@ def run(ctx, args):
             jobs.append((f"dag{i}h", cases[0]["dag"], "helper", cases, str(ctx.repo), scratch))
         else:
             jobs.append((f"dag{i}", cases[0]["dag"], "", cases, str(ctx.repo), scratch))
+            # the same program with one directory per module and the same file name in each: a module is identified by its import name
+            jobs.append((f"dag{i}d", cases[0]["dag"], "", [c for c in cases if c["order"] == [1]], str(ctx.repo), scratch, "dirs"))
+    for i, r in enumerate(deep):
+        jobs.append((f"deep{i}", r["dag"], "", [r], str(ctx.repo), scratch))
     with mp.Pool(16) as pool:
         results = pool.map(work, jobs)
+        results += pool.map(history, [(str(ctx.repo), scratch)])
     counts = {}
     for out in results:
         for key, what, case in out:
@@ -190,6 +258,8 @@ def run(ctx, args):
                 counts[what.split(":")[0]] = counts.get(what.split(":")[0], 0) + 1
             else:
                 ctx.violation(key, what, case)
+    if counts.get("ok-history", 0) != 4 and not ctx.violations:
+        raise common.Machinery("history scenario did not run")
     if counts.get("ok-linked", 0) == 0 and not ctx.violations:
         raise common.Machinery("vacuous run: nothing linked")
     multi = sum(1 for k in seen if len(k[2]) > 1)
@@ -197,7 +267,10 @@ def run(ctx, args):
         ctx, level="model_checking", evaluations=len(seen), distinct_nontrivial=multi,
         rule=f"Linker.tla explores all {ndag} import DAGs on {n} modules x clash / no clash x all {norders} sequences of distinct modules the host can add x all loading orders "
              f"({len(seen)} cases; LoadedOnce, OrderIndependent, ClashRejected checked); every case is replayed with nslc.py-compiled modules, the real Linker and a counting loader; "
-             "outcome, load counts and VM values (against the closure compiled as one module) compared; nslr.py run once per DAG. distinct_nontrivial = cases in which the host adds more than one module.",
+             "outcome, load counts and VM values (against the closure compiled as one module) compared; nslr.py run once per DAG. "
+             + ("Also all 64 DAGs on 4 modules with the host adding the root only; " if quick else "")
+             + "every clash-free DAG once more with one directory per module and the same file name in each; a history of four links in one process with the default loader "
+             "(the library re-stored and replaced between links). distinct_nontrivial = cases in which the host adds more than one module.",
         samples=[{"dag": c["dag"], "clash": c["clash"], "order": c["order"], "prescribed": c["outcome"], "loads": c["loads"]} for g in list(groups.values())[3::max(1, len(groups) // 3)][:3] for c in g[:1]],
         exhaustive=True, traces_validated=counts.get("ok-linked", 0) + counts.get("ok-rejected", 0),
         assumptions=["not judged: the host adds a module that another added module also imports (the linker cannot know that an object it was given is the module of that name)",
